@@ -410,15 +410,20 @@ CHECKS["C20"] = dict(
                "1-3 harness client connections and a harness server, for every pair of messaging transports "
                "(ux, uxf, tcp, tls, utls x same) and of byte-stream transports (btcp, btls x same). Steps: "
                "sends of 1..65535 bytes (up to 200 kB on byte streams) in both directions, bursts of up to 400 "
-               "large sends until the sender is refused while the other side does not read, receives, finishes, "
-               "closes (after the closer's own socket has finished). Everything successfully sent must arrive "
+               "sends (every third one tiny) until the sender is refused while the other side does not read, "
+               "receives, finishes, closes (after the closer's own socket has finished), a new client connection "
+               "taking the place of one whose two ends are closed, and the server not listening for a moment "
+               "while one more client connects (that client cannot be served; the relay has to stay up for the "
+               "others). A relay process of its own per case, so that what the relay carries over from one "
+               "connection to the next is part of the plan; client and server-side connection are paired by the "
+               "first message. Everything successfully sent must arrive "
                "unmodified, in order, once; a close is seen only after it; the relay must stay alive and move "
                "data again once the paused side reads (10 s without progress = stall). Sampled.",
     level_note="The relay's own sockets are in another process and are not fault-injected; back-pressure is produced "
                "by volume (kernel buffers). Liveness is a 10 s bound; the driver re-confirms three times.",
     rule=("case = transport pair x 1-3 connections x up to 60 steps. Non-trivial = traffic in both directions on a "
           "connection AND (a burst that ended in back-pressure, or a close issued while the closer's data was "
-          "still in flight)."),
+          "still in flight, or a connection re-opened after a close)."),
     assumptions=["a side that closes first lets its own socket finish (xcm_finish == 0), as C03 requires of senders"],
     quick=dict(workers=16, cases=60, maxsize=60),
     thorough=dict(workers=16, cases=3000, maxsize=60),
